@@ -149,10 +149,16 @@ impl Complex {
 				real.exact,
 			))
 		} else {
+			// (ix)^-y = 1 / (ix)^y: the reduced case below only handles
+			// non-negative exponents (`modulo` rejects negative numbers)
+			if self.real.is_zero() && rhs.imag.is_zero() && rhs.real.is_neg() {
+				let positive = self.pow(-rhs, int)?;
+				return Exact::new(Self::from(1), true).div(positive, int);
+			}
 			let rem = rhs.clone().real.modulo(4.into(), int);
 			// Reduced case: (ix)^y = x^y * i^y
 			if self.real.is_zero() && rhs.imag.is_zero() {
-				if let Ok(n) = rhs.real.try_as_usize(int) {
+				if let Ok(n) = rhs.real.clone().try_as_usize(int) {
 					return self.pow_n(n, int);
 				}
 
@@ -179,7 +185,7 @@ impl Complex {
 				if !self.imag.is_definitely_one() {
 					result = self
 						.imag
-						.pow(2.into(), int)?
+						.pow(rhs.real, int)?
 						.apply(Self::from)
 						.mul(&result, int)?;
 				}
